@@ -9,11 +9,12 @@ class Case:
     """One correspondence case.
     line : harness input line;  kind : generator family (for the distribution);
     info : anything json-able describing the input (for samples / replays)."""
-    __slots__ = ("line", "kind", "info", "out", "term", "code", "nontrivial", "blobs")
+    __slots__ = ("line", "kind", "info", "out", "term", "code", "nontrivial", "blobs", "part")
 
     def __init__(self, line, kind, info=None, nontrivial=True, blobs=()):
         self.line, self.kind, self.info, self.blobs = line, kind, info, list(blobs)
         self.out = self.term = self.code = None
+        self.part = None
         self.nontrivial = nontrivial
 
 
@@ -67,6 +68,8 @@ def shrink(prop, binp, case, pred_bit):
         cands = prop.shrink_candidates(cur)[:64]
         if not cands:
             break
+        for x in cands:
+            x.part = case.part
         r = run_correspondence(prop, binp, cands, "shrink")
         if r["error"]:
             break
@@ -120,7 +123,10 @@ def main(argv):
             broken.append("grep gate: " + "; ".join(gate[:5]))
         models_ok = False
         if ok:
-            models_ok, out = vlib.coq_make(prop.model_targets)
+            targets = []
+            for part in (getattr(prop, "parts", None) or [prop]):
+                targets += [t for t in part.model_targets if t not in targets]
+            models_ok, out = vlib.coq_make(targets)
             if not models_ok:
                 broken.append("model/spec files do not compile: " + out[-1500:])
         proofs_ok = False
@@ -155,53 +161,67 @@ def main(argv):
     samples = []
     known_counts = Counter()
     K_fail, O_fail = [], []
+    # a property may be decided on several harnesses (e.g. connection task and manager): its parts
+    parts = getattr(prop, "parts", None) or [prop]
+    for part in parts:
+        part.known_classes = prop.known_classes
     if hok and models_ok:
-        cases = prop.corpus() + prop.gen(rng, tier)
-        for c in cases:
-            dist[c.kind] += 1
-        r = run_correspondence(prop, binp, cases, "main")
-        total += len(cases)
-        if r["error"]:
-            broken.append(r["error"])
-        K_fail, O_fail = r["K_fail"], r["O_fail"]
-        known_counts.update(r["known"])
-        for c in cases:
-            if c.nontrivial:
-                nontrivial.add(c.line)
-        step = max(1, len(cases) // 6)
-        samples = [{"input": c.line[:300], "impl": (c.out or "")[:300]} for c in cases[::step][:8]]
+        for part in parts:
+            cases = part.corpus() + part.gen(rng, tier)
+            for c in cases:
+                c.part = part
+                dist[c.kind] += 1
+            r = run_correspondence(part, binp, cases, "main")
+            total += len(cases)
+            if r["error"]:
+                broken.append(r["error"])
+            K_fail += r["K_fail"]
+            O_fail += r["O_fail"]
+            known_counts.update(r["known"])
+            for c in cases:
+                if c.nontrivial:
+                    nontrivial.add(c.line)
+            step = max(1, len(cases) // 6)
+            samples += [{"input": c.line[:300], "impl": (c.out or "")[:300]} for c in cases[::step][:8 if len(parts) == 1 else 4]]
         # search for a concrete failing input when the property is no longer shown to hold
         if (broken or K_fail) and not O_fail:
             log("property no longer shown to hold (%s); searching for a failing input ..." %
                 ("; ".join(b[:120] for b in broken) if broken else "%d model/impl disagreements" % len(K_fail)))
-            seeds = [c for c in K_fail[:20]]
-            extra = prop.search(rng, seeds) if hasattr(prop, "search") else prop.gen(rng, "search")
-            r2 = run_correspondence(prop, binp, extra, "search")
-            total += len(extra)
-            if not r2["error"]:
-                O_fail = r2["O_fail"]
-                K_fail = K_fail or r2["K_fail"]
-                known_counts.update(r2["known"])
+            for part in parts:
+                seeds = [c for c in K_fail[:20] if c.part is part]
+                extra = part.search(rng, seeds) if hasattr(part, "search") else part.gen(rng, "search")
+                for c in extra:
+                    c.part = part
+                r2 = run_correspondence(part, binp, extra, "search")
+                total += len(extra)
+                if not r2["error"]:
+                    O_fail += r2["O_fail"]
+                    K_fail = K_fail or r2["K_fail"]
+                    known_counts.update(r2["known"])
+                if O_fail:
+                    break
 
     for name, cnt in sorted(known_counts.items()):
         desc = next((k.get("what", "") for k in known if k["class_id"] == name), "")
         log("KNOWN-FINDING: property=%s %s (%d cases this run) %s" % (prop_id, name, cnt, desc))
 
     if O_fail:
-        c = shrink(prop, binp, O_fail[0], 2) if hok else O_fail[0]
+        c = shrink(O_fail[0].part, binp, O_fail[0], 2) if hok else O_fail[0]
+        c.part = c.part or O_fail[0].part
         path = vlib.write_replay(prop_id, {
             "property": prop_id, "verdict": "the implementation's behaviour on this input fails the specification oracle",
-            "case": describe(prop, c), "other_failing_cases": len(O_fail) - 1,
+            "case": describe(c.part, c), "other_failing_cases": len(O_fail) - 1,
             "replay": "./check %s --replay <this file>" % prop_id})
         violations.append((path, ""))
     elif broken or K_fail:
         payload = {"property": prop_id,
                    "verdict": "property no longer shown to hold; no input on which it fails was found",
-                   "no_longer_checks": broken or ["correspondence model vs implementation (%s)" % prop.corr_name],
+                   "no_longer_checks": broken or ["correspondence model vs implementation (%s)" % K_fail[0].part.corr_name],
                    "replay": "./check %s" % prop_id}
         if K_fail:
-            c = shrink(prop, binp, K_fail[0], 1) if hok else K_fail[0]
-            payload["first_disagreement"] = describe(prop, c)
+            c = shrink(K_fail[0].part, binp, K_fail[0], 1) if hok else K_fail[0]
+            c.part = c.part or K_fail[0].part
+            payload["first_disagreement"] = describe(c.part, c)
             payload["disagreements"] = len(K_fail)
         path = vlib.write_replay(prop_id, payload)
         violations.append((path, " no-failing-input-found"))
